@@ -219,6 +219,11 @@ class Builder:
         out = ['static ' + f.proto(), '{']
         for d in fs.decls:
             out.append('    ' + d)
+        # a call that C++ never makes: an exception is already propagating (thrown by an argument expression the
+        # translation did not separate).  Without this the callee's "ensures !thrown" would silently drop the path.
+        # The ensures are therefore assumed only when nothing was pending; otherwise the state is left arbitrary and the
+        # pending throw stays pending (no early return: that made some queries much slower).
+        out.append('    const _Bool verif_pending = verif_thrown;')
         for r in fs.requires:
             out.append('    __CPROVER_assert(verif_thrown || (%s), "%s/call %s/requires");' % (subst(r, f=f), caller, cn))
         olds = {}
@@ -247,7 +252,7 @@ class Builder:
                     continue          # not part of what callers may assume
             for full, v in olds.items():
                 e = e.replace(full, v)
-            out.append('    __CPROVER_assume(%s);' % subst(e, f=f))
+            out.append('    __CPROVER_assume(verif_pending || (%s));' % subst(e, f=f))
         if f.ret != 'void':
             out.append('    return verif_ret;')
         out.append('}')
